@@ -1,6 +1,7 @@
 package main
 
 import (
+	"context"
 	"encoding/base64"
 	"encoding/json"
 	"fmt"
@@ -51,8 +52,27 @@ func newSrvProbe(cfg *eio.ServerConfig) *srvProbe {
 func (p *srvProbe) do(method, query, body string) *httptest.ResponseRecorder {
 	rec := httptest.NewRecorder()
 	req := httptest.NewRequest(method, "http://x/engine.io/?"+query, strings.NewReader(body))
-	p.srv.ServeHTTP(rec, req)
+	if !serveWithin(p.srv, rec, req, 3*time.Second) {
+		return httptest.NewRecorder() // not answered (a long poll): no error code
+	}
 	return rec
+}
+
+// serveWithin runs the handler and gives up waiting after d (the handler goroutine is left behind; the request's context is cancelled)
+func serveWithin(srv http.Handler, rec *httptest.ResponseRecorder, req *http.Request, d time.Duration) bool {
+	ctx, cancel := context.WithCancel(req.Context())
+	defer cancel()
+	done := make(chan struct{})
+	go func() {
+		defer close(done)
+		srv.ServeHTTP(rec, req.WithContext(ctx))
+	}()
+	select {
+	case <-done:
+		return true
+	case <-time.After(d):
+		return false
+	}
 }
 
 // handshake creates a live polling session and returns its sid.
@@ -85,7 +105,8 @@ func eioServer(h *H) {
 	methods := []string{"GET", "POST", "PUT", "DELETE", "OPTIONS"}
 	eios := []string{"absent", "3", "4", "5", "junk"}
 	transports := []string{"absent", "polling", "websocket", "junk"}
-	sids := []string{"absent", "unknown", "live", "closed"}
+	// closed: by ServerSocket.Close; closed:client: by a CLOSE packet from the client; closed:garbage: by an undecodable payload
+	sids := []string{"absent", "unknown", "live", "closed", "closed:client", "closed:garbage"}
 	flags := []string{"", "b64=1", "j=0", "b64=1&j=0"}
 	for _, closed := range []bool{false, true} {
 		for _, m := range methods {
@@ -93,7 +114,7 @@ func eioServer(h *H) {
 				for _, tr := range transports {
 					for _, sk := range sids {
 						for _, fl := range flags {
-							if closed && (fl != "" || sk == "closed") {
+							if closed && (fl != "" || strings.HasPrefix(sk, "closed")) {
 								continue
 							}
 							p := newSrvProbe(nil)
@@ -125,6 +146,28 @@ func eioServer(h *H) {
 								s.Close()
 								q.Set("sid", c)
 								sidModel = "unknown"
+							case "closed:client", "closed:garbage":
+								// a second session, ended from the transport side
+								c := p.handshake()
+								body := "1"
+								if sk == "closed:garbage" {
+									body = "\x1e\x1e9zz"
+								}
+								cl := atomic.LoadInt32(&p.closes)
+								p.do("POST", "EIO=4&transport=polling&sid="+c, body)
+								// the session ends on a goroutine of its own: wait until the application has been told (OnClose)
+								for w := 0; w < 2000 && atomic.LoadInt32(&p.closes) == cl; w++ {
+									time.Sleep(time.Millisecond)
+								}
+								// ... and until the server has finished forgetting it (at most 150 ms; if it never does, the request below shows it)
+								for w := 0; w < 3; w++ {
+									if errCode(p.do("GET", "EIO=4&transport=polling&sid="+c, "")) == "1" {
+										break
+									}
+									time.Sleep(50 * time.Millisecond)
+								}
+								q.Set("sid", c)
+								sidModel = "unknown"
 							}
 							query := q.Encode()
 							if fl != "" {
@@ -153,7 +196,19 @@ func eioServer(h *H) {
 							if strings.Contains(fl, "j=0") && m == "POST" {
 								req.Header.Set("Content-Type", "application/x-www-form-urlencoded")
 							}
-							pn := safely(func() { p.srv.ServeHTTP(rec, req) })
+							hung := false
+							pn := safely(func() {
+								if strings.HasPrefix(sk, "closed") {
+									hung = !serveWithin(p.srv, rec, req, 3*time.Second)
+								} else {
+									p.srv.ServeHTTP(rec, req)
+								}
+							})
+							if hung {
+								rec = httptest.NewRecorder()
+								h.Violation("C17", "a request with the id of a closed session is not answered", fmt.Sprintf("%s /engine.io/?%s (session ended by: %s)", m, query, sk), "no answer within 3 s: the request was handed to the closed session")
+								continue
+							}
 							newD := atomic.LoadInt32(&p.newCount) - new0
 							pkD := atomic.LoadInt32(&p.packets) - pk0
 							code := errCode(rec)
@@ -167,7 +222,7 @@ func eioServer(h *H) {
 							effect := "none"
 							status := fmt.Sprint(rec.Code)
 							switch {
-							case code == "-" && rec.Code != 503 && rec.Code != 403 && tr == "websocket" && sk != "unknown" && sk != "closed" && !(sk == "absent" && m != "GET") && e == "4":
+							case code == "-" && rec.Code != 503 && rec.Code != 403 && tr == "websocket" && sk != "unknown" && !strings.HasPrefix(sk, "closed") && !(sk == "absent" && m != "GET") && e == "4":
 								effect, status = "ws-handshake", "*"
 							case newD > 0:
 								effect = "new:" + tr
@@ -183,7 +238,7 @@ func eioServer(h *H) {
 							case closed:
 							case e != "4":
 								invalidCode = "5"
-							case sk == "unknown" || sk == "closed":
+							case sk == "unknown" || strings.HasPrefix(sk, "closed"):
 								invalidCode = "1"
 							case sk == "absent" && m != "GET":
 								invalidCode = "2"
